@@ -34,7 +34,7 @@ CHECKS = {
          "Trusted: boundary predicates, the midpoint table written from the statement and lib.rs docs. K1 (century years) is reported as KNOWN-FINDING, everything else is a violation.",
          "4/C11"),
  "C12": ("exhaustive seconds x boundary intervals + proptest pairs vs. i128 modular arithmetic",
-         "Every second of the day x boundary microseconds x boundary intervals x add/sub, proptest-generated (time, interval) pairs with shrinking, sub_time on pool pairs, interval->time conversion and mixed comparisons in both orders, against (t +- i) mod 86400e6 in i128.",
+         "Every second of the day x boundary microseconds x boundary intervals x add/sub, proptest-generated (time, interval) pairs with shrinking, sub_time on pool pairs, interval->time conversion and mixed comparisons in both orders, against (t +- i) mod 86400e6 in i128. Intervals derived from the time itself (its value / complement to midnight plus whole days, both signs; the distances to the next / previous second, minute, hour boundary) go through add, sub and every comparison.",
          "Trusted: i128 arithmetic. Arbitrary (time, interval) pairs are sampled.",
          "4/C12"),
  "C13": ("enumeration (all year-month values in thorough) + pools + validity grids vs. sign/div/rem model",
@@ -42,11 +42,11 @@ CHECKS = {
          "Trusted: i128 arithmetic. Day-time intervals are sampled outside the +-2 day window.",
          "4/C13"),
  "C14": ("pool x classed-scalar sweeps + proptest vs. exact dyadic-rational arithmetic (no floating point in the oracle)",
-         "Interval/Time x mul_f64/div_f64 over boundary pools x classed doubles (integers, dyadic, decimal, tiny, huge, zeros, infinities, NaN, edge-seeking limit/x) and proptest-generated pairs: the result must lie in the exactly computed admissible set (relative 2^-52 then truncation toward zero; single value for integer multipliers below 2^53), errors must have the kind the statement names, and sign symmetry must hold on whole Results. The oracle locates results exactly against the overflow threshold of the double (2^1024 - 2^970) and accepts both error kinds only within the stated tolerance of it.",
+         "Interval/Time x mul_f64/div_f64 over boundary pools x classed doubles (integers, dyadic, decimal, tiny, huge, zeros, infinities, NaN, edge-seeking limit/x, operand-derived x, x/2, 2x, 1/x) and proptest-generated pairs: the result must lie in the exactly computed admissible set (relative 2^-52 then truncation toward zero; single value for integer multipliers below 2^53), errors must have the kind the statement names, and sign symmetry must hold on whole Results. The oracle locates results exactly against the overflow threshold of the double (2^1024 - 2^970) and accepts both error kinds only within the stated tolerance of it.",
          "Trusted: the dyadic decomposition (unit-tested); the admissible set is a superset of the statement's tolerance by at most a relative 2^-60, so ties cannot alarm.",
          "4/C14"),
  "C19": ("exhaustive short strings + proptest token sequences vs. reference longest-match tokenizer, observed through a probe rendering; both build profiles",
-         "Every string up to length 4 (quick) / 5 (thorough) over a 39-symbol alphabet, blank runs of every length up to 700 and at 2^k boundaries up to 2^25 (2^27 in thorough), the 36-token limit, near-miss spellings and proptest token sequences of up to 40 tokens are compiled; acceptance must equal the reference tokenizer's and the probe rendering must equal the reference rendering of the reference token list (token identity, name case, blank-run length). Run under release and under overflow-checked builds. Every letter-case pattern of every name / meridian token is formatted for probes covering every month name, weekday name and both meridians.",
+         "Every string up to length 4 (quick) / 5 (thorough) over a 39-symbol alphabet, blank runs of every length up to 700 and at 2^k boundaries up to 2^25 (2^27 in thorough), the 36-token limit, every single-character substitution / insertion / deletion (all ASCII values) in every token spelling, near-miss spellings and proptest token sequences of up to 40 tokens are compiled; acceptance must equal the reference tokenizer's and the probe rendering must equal the reference rendering of the reference token list (token identity, name case, blank-run length). Run under release and under overflow-checked builds. Every letter-case pattern of every name / meridian token is formatted for probes covering every month name, weekday name and both meridians.",
          "Trusted: the reference tokenizer written from the token list in the statement. Language membership beyond length 5 is sampled by grammar-based generation.",
          "4/C19"),
  "C02": ("operation-table cross-product sweeps + proptest operands vs. range predicates and exact models (validity oracle)",
@@ -66,11 +66,11 @@ CHECKS = {
          "Trusted: the lossless-picture grammar (which pictures count as unambiguous: DESIGN.md 4/C06). Picture space is sampled.",
          "4/C06"),
  "C15": ("round trip through serde_json and bincode + payload perturbation + operation histories (single-thread and 16-thread stress); oracle = same value / range predicate / denoted integer",
-         "All dates, all seconds and pools of the other types round-trip through JSON and bincode with the exact expected encodings (reference rendering of the fixed layouts; little-endian raw counts); raw integers at every limit +-3, at the integer extremes and 1e5..1e6 seeded integers, and mutated / malformed JSON strings, must decode to Err or an in-range value (whole seconds for the Oracle-style date). Histories of 2..10 successful and failing operations on one thread, concurrent histories from 16 threads, integers of every width through serde's value deserializers (error or exactly the denoted value) and long strings with a multi-byte character across every byte offset complete the decode side.",
+         "All dates, all seconds and pools of the other types round-trip through JSON and bincode with the exact expected encodings (reference rendering of the fixed layouts; little-endian raw counts; the binary round trip is repeated with variable-length and with big-endian integers); raw integers at every limit +-3, at the integer extremes and 1e5..1e6 seeded integers, and mutated / malformed JSON strings, must decode to Err or an in-range value (whole seconds for the Oracle-style date). Histories of 2..10 successful and failing operations on one thread, concurrent histories from 16 threads, integers of every width through serde's value deserializers (error or exactly the denoted value) and long strings with a multi-byte character across every byte offset complete the decode side.",
          "Trusted: serde_json and bincode 1.3 as data formats; the reference renderer for the JSON layouts.",
          "4/C15"),
  "C16": ("exhaustive conversion sweep + operation-table invariant + exact dyadic model for fractional days",
-         "From<Timestamp>/new for all dates x 4 seconds x 5 sub-second parts equal the i128 floor; every operation that takes or returns an Oracle-style date keeps the whole-second / range invariant on pool cross products; interval arithmetic equals the floored timestamp result; add_days variants land on a whole second within half a second of an exactly computed admissible instant; sub_date equals seconds/86400 correctly rounded. Every visited instant is also injected as the current local instant for OracleDate::now() and OracleDate::try_from(Time).",
+         "From<Timestamp>/new for all dates x 4 seconds x 5 sub-second parts equal the i128 floor; every operation that takes or returns an Oracle-style date keeps the whole-second / range invariant on pool cross products; interval arithmetic equals the floored timestamp result (also for the month distances to the first / last supported month on every date); add_days variants land on a whole second within half a second of an exactly computed admissible instant; sub_date equals seconds/86400 correctly rounded. Every visited instant is also injected as the current local instant for OracleDate::now() and OracleDate::try_from(Time).",
          "Trusted: i128 arithmetic, dyadic model. add_days may fail when the unrounded instant is outside the timestamp range (documented leniency).",
          "4/C16"),
  "C17": ("differential / metamorphic agreement of three implementations, exhaustive over dates",
@@ -78,7 +78,7 @@ CHECKS = {
          "Trusted: only the conversions between the three types (themselves checked in C07/C16).",
          "4/C17"),
  "C18": ("exhaustive sweep of the injected clock over every possible current date x time-of-day classes vs. default model, omission grid over time-part pictures (needs the verif-hooks clock)",
-         "The clock hook is set to each of the 3,652,059 possible current local dates (x 1 or 3 times of day) and partial pictures, short years, now() and time-of-day conversions are compared with the model defaults validated by the walked calendar; complete pictures must give identical results under nine different clocks. An omission grid (12 time-part pictures in several field orders, text ending after every token) and rotating injected times of day (midnight, +1 us, +0.5 s, mid-day, last microsecond) cover the 12-hour / meridian defaults and the first second of the day before 1970.",
+         "The clock hook is set to each of the 3,652,059 possible current local dates (x 1 or 3 times of day) and partial pictures, short years, now() and time-of-day conversions are compared with the model defaults validated by the walked calendar; partial pictures with a field that is present but outside its domain must denote no date under any clock; complete pictures must give identical results under nine different clocks. An omission grid (12 time-part pictures in several field orders, text ending after every token) and rotating injected times of day (midnight, +1 us, +0.5 s, mid-day, last microsecond) cover the 12-hour / meridian defaults and the first second of the day before 1970.",
          "Trusted: the hook replaces exactly the value of Local::now().naive_local() at the six read sites (add-only, feature-gated). Time-zone handling inside chrono is outside the property.",
          "4/C18"),
 }
